@@ -104,7 +104,13 @@ def dispatch(E, c, tc, args):
                 return VSeq([VStruct("()", [VRef(r.cell, r.path + (("field", k), ("field", 0))), VRef(r.cell, r.path + (("field", k), ("field", 1)))]) for k in range(n)], "iter")
             idx = 0 if meth == "keys" else 1
             return VSeq([VRef(r.cell, r.path + (("field", k), ("field", idx))) for k in range(n)], "iter")
-    m3 = re.search(r"(?:^|::)(BTreeMap|HashMap|LinkedHashMap)::<.*>::(insert|get|contains_key|new)$", c, re.S)
+    if re.search(r"<impl \[.*\]>::contains$", c) or re.match(r"^std::vec::Vec::<.*>::contains$", c, re.S):
+        d = deref(E, args[0])
+        if isinstance(d, VSeq):
+            x = E.as_u(args[1])
+            eq = z3.Function("abstract_eq", E.U, E.U, z3.BoolSort())
+            return VBool(z3.Or([eq(E.as_u(it), x) for it in d.items]) if d.items else z3.BoolVal(False))
+    m3 = re.search(r"(?:^|::)(BTreeMap|HashMap|LinkedHashMap)::<.*>::(insert|get|contains_key|new)(?:::<.*>)?$", c, re.S)
     if m3:
         meth = m3.group(2)
         if meth == "new" and not args:
